@@ -30,8 +30,18 @@ type Loaded struct {
 }
 
 type loopInfo struct {
-	Pos, End token.Pos
-	Vars     []*types.Var // variables visible at the loop (params, results, locals)
+	File     string
+	Pos, End int          // byte offsets in File (positions of another FileSet are not comparable)
+	Vars     []loopVar    // variables visible at the loop (params, results, locals)
+}
+
+// loopVar identifies a source variable by name and declaration position, so that it can be
+// matched against objects of a different type-checking run.
+type loopVar struct {
+	Name string
+	File string
+	Off  int
+	Type types.Type
 }
 
 const overlayName = "verif_generated_specs.go"
@@ -126,6 +136,16 @@ func Load(repo, tags string) (*Loaded, error) {
 		}
 		for _, a := range fn.AnonFuncs {
 			addFn(a)
+		}
+	}
+	// every function declaration of the package, including methods of generic types
+	for _, file := range L.Pkg.Syntax {
+		for _, d := range file.Decls {
+			if fd, ok := d.(*ast.FuncDecl); ok {
+				if obj, ok := L.Pkg.TypesInfo.Defs[fd.Name].(*types.Func); ok {
+					addFn(prog.FuncValue(obj))
+				}
+			}
 		}
 	}
 	for _, m := range L.SPkg.Members {
@@ -335,7 +355,8 @@ func genOverlay(p *packages.Package, con *Contracts, L *Loaded) (string, []strin
 	w("func __exists(f any) bool { return true }\n")
 	w("func __old[T any](x T) T { return x }\n")
 	w("func __trigger(x ...any) bool { return true }\n")
-	w("func __has[K comparable, V any](m map[K]V, k K) bool { return true }\n\n")
+	w("func __has[K comparable, V any](m map[K]V, k K) bool { return true }\n")
+	w("func __same[T any](a, b T) bool { return true }\n\n")
 
 	for _, d := range con.Decls {
 		w("//origin %s %s (%s:%d)\n", d.Kind, d.Name, filepath.Base(d.File), d.Line)
@@ -476,11 +497,11 @@ func genOverlay(p *packages.Package, con *Contracts, L *Loaded) (string, []strin
 				var ps []string
 				seen := map[string]bool{}
 				for _, v := range li.Vars {
-					if seen[v.Name()] || v.Name() == "_" {
+					if seen[v.Name] || v.Name == "_" {
 						continue
 					}
-					seen[v.Name()] = true
-					ps = append(ps, v.Name()+" "+strings.Replace(g.typ(v.Type()), "...", "[]", 1))
+					seen[v.Name] = true
+					ps = append(ps, v.Name+" "+strings.Replace(g.typ(v.Type), "...", "[]", 1))
 				}
 				rt := "bool"
 				if cl.Kind == "decreases" {
@@ -537,9 +558,9 @@ func collectLoops(p *packages.Package, fd *ast.FuncDecl) []loopInfo {
 		case *ast.FuncLit:
 			return false
 		case *ast.ForStmt:
-			loops = append(loops, loopInfo{Pos: s.Pos(), End: s.End(), Vars: varsAt(p, fd, s.Body.Lbrace+1, s)})
+			loops = append(loops, loopInfo{File: p.Fset.Position(s.Pos()).Filename, Pos: p.Fset.Position(s.Pos()).Offset, End: p.Fset.Position(s.End()).Offset, Vars: varsAt(p, fd, s.Body.Lbrace+1, s)})
 		case *ast.RangeStmt:
-			loops = append(loops, loopInfo{Pos: s.Pos(), End: s.End(), Vars: varsAt(p, fd, s.Body.Lbrace+1, s)})
+			loops = append(loops, loopInfo{File: p.Fset.Position(s.Pos()).Filename, Pos: p.Fset.Position(s.Pos()).Offset, End: p.Fset.Position(s.End()).Offset, Vars: varsAt(p, fd, s.Body.Lbrace+1, s)})
 		}
 		return true
 	}
@@ -547,7 +568,16 @@ func collectLoops(p *packages.Package, fd *ast.FuncDecl) []loopInfo {
 	return loops
 }
 
-func varsAt(p *packages.Package, fd *ast.FuncDecl, pos token.Pos, loop ast.Node) []*types.Var {
+func varsAt(p *packages.Package, fd *ast.FuncDecl, pos token.Pos, loop ast.Node) []loopVar {
+	var out []loopVar
+	for _, v := range varsAt0(p, fd, pos, loop) {
+		pp := p.Fset.Position(v.Pos())
+		out = append(out, loopVar{Name: v.Name(), File: pp.Filename, Off: pp.Offset, Type: v.Type()})
+	}
+	return out
+}
+
+func varsAt0(p *packages.Package, fd *ast.FuncDecl, pos token.Pos, loop ast.Node) []*types.Var {
 	fscope := p.TypesInfo.Scopes[fd.Type]
 	if fscope == nil {
 		return nil
